@@ -13,7 +13,8 @@ CHECKS = {
         "FinalizeData): the raw output reloads, the reader stops at the footer, re-saves byte-identically, and the default save converges within two rounds. Exhaustive within the bound, "
         "which is what a per-type/per-version universal claim needs and what 26 golden files cannot give.",
    note="Values outside the per-kind alphabets and more than 1 (quick) / 2 (thorough) simultaneous deviations are not explored; branching only at the first occurrence of a call site; "
-        "inputs on which the reader itself faults are counted as not accepted; file level covers deviation 0 (quick) / <= 1 (thorough)."),
+        "inputs on which the reader itself faults are counted as not accepted; file level covers deviation 0 (quick) / <= 1 (thorough); in the linked chains one member at a time "
+        "varies within deviation 1 (quick) / 2 (thorough)."),
  "C02": dict(engine="E1 typed-read explorer + linked chains + scene graphs + sample files", cat="exploration", ref="DESIGN.md 4 C02",
    technique="exhaustive enumeration of save/query histories (<= 3 operations) over the E1 corpus, reference function on histories",
    text="All histories over {raw save, default save, read-only query battery} up to length 3 (5 representative ones in quick) on every sample file and on the synthesised single-block files, "
